@@ -14,7 +14,7 @@ EXPLANATION = (
     "normal return, the key it borrows from is inserted (VacantEntry::insert), so borrower and owner never disagree; "
     "(e) the laundered value derives from the entry's own key. ensure_owned's transmute is applied to a fresh "
     "`clone()` under the true edge of `is_owned()`. Hand-written Clone/clone_from of the stores must be field-wise "
-    "(f <- f). NOT decided: absence of UB inside std containers; that `&SimpleTerm<'static>` handed out by the stores "
+    "(f <- f). (R10.5) the only *_unchecked operations in sophia_inmem are the audited unwrap_unchecked of the matching iterators. NOT decided: absence of UB inside std containers; that `&SimpleTerm<'static>` handed out by the stores "
     "cannot be cloned into a value outliving the store (type-level, see known finding / E4 witness).")
 
 SCOPE = ("sophia_inmem", "sophia_api")
@@ -55,9 +55,45 @@ def controls(ck):
     ck.control("R10.2a", "NegLaundering (hand-written rebuilding Clone)", pr.fired(r"NegLaundering"), expect=False)
 
 
+UNCHECKED_OK = {
+    # (function, callee suffix) -> (max count, reason)
+    ("dataset::_iter::BcdMatchingIterator::<'a, TI, BM, CM, DM>::boxed", "Option::<T>::unwrap_unchecked"):
+        (3, "term slots of a quad re-ordered from an index key: Some by construction, decided by C01 R1.2 (role propagation of the re-ordering closure)"),
+    ("dataset::_iter::CdMatchingIterator::<'a, TI, CM, DM>::boxed", "Option::<T>::unwrap_unchecked"):
+        (3, "as BcdMatchingIterator::boxed"),
+}
+
+
+def unchecked_rule(ck, facts):
+    """R10.5: the only `*_unchecked` operations of the in-memory stores are the audited ones.  An unchecked slice access,
+    unwrap or str conversion turns a violated precondition into undefined behaviour that safe callers can reach (e.g.
+    `get_term(i)` with an index obtained from another store)."""
+    seen = {}
+    for f in facts.fns.values():
+        if f.crate != "sophia_inmem":
+            continue
+        root = f if f.kind != "Closure" else facts.fns.get(f.root, f)
+        if root.impl and root.impl.get("derived"):
+            continue
+        for bi, t in f.calls():
+            n = t["f"].get("name") or ""
+            if not re.search(r"unchecked", n) or re.search(r"^sophia|::new_unchecked$|::map_unchecked$", n):
+                continue
+            key = (root.name, re.sub(r"^(std|core|alloc)::\w+::", "", n))
+            seen[key] = seen.get(key, 0) + 1
+            ent = UNCHECKED_OK.get(key)
+            if ent is None or seen[key] > ent[0]:
+                ck.bad("R10.5", "R10.5@%s#%s" % (root.name, n.split("::")[-1]), "%s calls the unchecked operation %s, which is not in the audited "
+                       "list: a violated precondition is undefined behaviour reachable from safe code" % (root.name, n), "%s:%s" % (t["file"], t["line"]))
+            else:
+                ck.ok("R10.5", "%s: %s (%s)" % (root.name, n.split("::")[-1], ent[1]), nontrivial=(seen[key] == 1))
+    ck.floor("R10.5", "audited unchecked operations in sophia_inmem", sum(seen.values()), 6)
+
+
 def run(ck, facts, tier):
     facts.require_crates(list(SCOPE))
     controls(ck)
+    unchecked_rule(ck, facts)
     analyse(ck, facts, SCOPE, floor=2)
     store_clone_rule(ck, facts)
 
